@@ -225,7 +225,95 @@ def h_net(cfg):
     cover('network-scenario')
 
 
-HARNESSES = {'split': h_split, 'initial': h_initial, 'net': h_net}
+def h_netmon(cfg):
+    """network scenario with never-ending samplers (scheduler Monitor, PortMonitor): run(until=T) in one go
+    versus step()s / earlier stops followed by run(until=T)"""
+    from onl.sim import Environment
+    from onl.packet import DistPacketGenerator
+    from onl.netdev import Port, PortMonitor
+    from onl.scheduler import SP, Monitor
+    tape = {}
+    T = cfg['T']
+
+    def draw(name, i, sort, lo=0):
+        k = (name, i)
+        if k not in tape:
+            tape[k] = sym_num('%s%d' % (name, i), sort, lo)
+        return tape[k]
+
+    traces = []
+    for variant in ('single', 'split'):
+        env = Environment()
+        cnt = {'g': 0, 's': 0}
+
+        def gaps():
+            i = cnt['g']
+            cnt['g'] += 1
+            return draw('g', i, cfg['sorts']) if i < cfg['n'] else INF
+
+        def sizes():
+            i = cnt['s']
+            cnt['s'] += 1
+            return draw('s', i, 'int', 1) if i < cfg['n'] else 1
+
+        log = []
+
+        class Rec:
+            def put(self, p):
+                log.append(('sunk', p.packet_id, env.now))
+        gen = DistPacketGenerator(env, 'G', gaps, sizes, flow_id=0)
+        sched = SP(env, 8, {0: 1})
+        port = Port(env, 8, None, False, 'p')
+        gen.out, sched.out, port.out = sched, port, Rec()
+        class _NoSamples:
+            sizes, sizes_byte = {}, []
+        mon = pm = None
+        if cfg.get('samplers', 'both') in ('both', 'sched'):
+            mon = Monitor(env, sched, lambda: cfg['interval'], service_included=True)
+        if cfg.get('samplers', 'both') in ('both', 'port'):
+            pm = PortMonitor(env, port, lambda: cfg['interval'], pkt_in_service_included=True)
+            env.process(pm.run())
+        try:
+            if variant == 'split':
+                for st in cfg['plan']:
+                    if st[0] == 'until':
+                        try:
+                            env.run(until=st[1])
+                        except ValueError:
+                            pass
+                    else:
+                        for _ in range(st[1]):
+                            # single steps only inside the horizon of the uninterrupted run(until=T)
+                            if env.peek() != INF and env.peek() < T:
+                                env.step()
+            if env.now < T:
+                env.run(until=T)
+        except Exception as ex:  # noqa
+            fail('no-raise', '%s: %s: %s' % (variant, type(ex).__name__, ex))
+            return
+        traces.append((log, [list(v) for _, v in sorted(mon.sizes.items())] if mon else [],
+                       list(pm.sizes) if pm else [], list(pm.sizes_byte) if pm else []))
+    a, b = traces
+    check('c03.split-same-length', len(a[0]) == len(b[0]), (len(a[0]), len(b[0])))
+    for x, y in zip(a[0], b[0]):
+        check('c03.split-same-order', x[1] == y[1])
+        check('c03.split-same-times', eq(x[2], y[2]))
+    check('c03.split-same-monitor-samples', len(a[1]) == len(b[1]) and all(len(u) == len(v) for u, v in zip(a[1], b[1])),
+          ([len(u) for u in a[1]], [len(u) for u in b[1]]))
+    for u, v in zip(a[1], b[1]):
+        for x, y in zip(u, v):
+            check('c03.split-same-monitor-samples', eq(x, y))
+    check('c03.split-same-port-samples', len(a[2]) == len(b[2]), (len(a[2]), len(b[2])))
+    for x, y in zip(a[2], b[2]):
+        check('c03.split-same-port-samples', eq(x, y))
+    for x, y in zip(a[3], b[3]):
+        check('c03.split-same-port-samples', eq(x, y))
+    cover('nontrivial')
+    cover('network-scenario')
+    obs('samples', len(a[2]), [len(u) for u in a[1]])
+
+
+HARNESSES = {'split': h_split, 'initial': h_initial, 'net': h_net, 'netmon': h_netmon}
 
 PLANS = [
     [['until', 1]], [['until', 2], ['until', 3]], [['step', 1], ['until', 2]], [['step', 3]],
@@ -257,6 +345,14 @@ def jobs(tier, seed):
             js.append({'harness': 'initial', 'cfg': {'sorts': sorts, 'c': c}})
     for plan in ([['until', 1], ['until', 2]], [['step', 2], ['until', 3]], [['until', 2], ['step', 3]]):
         js.append({'harness': 'net', 'cfg': {'n': 2, 'sorts': 'int', 'plan': plan}, 'weight': 300})
+    combos = [([['until', 2], ['step', 30]], 'sched'), ([['step', 40]], 'port'), ([['step', 12], ['until', 3]], 'both')]
+    if tier != 'quick':
+        combos += [([['step', 40]], 'sched'), ([['until', 2], ['step', 30]], 'port'), ([['step', 6]], 'both'),
+                   ([['until', 2], ['step', 30]], 'both')]
+    for plan, smp in combos:
+        if True:
+            js.append({'harness': 'netmon', 'cfg': {'n': 2, 'sorts': 'int', 'plan': plan, 'T': 8, 'interval': 1,
+                                                    'samplers': smp}, 'weight': 300})
     return js
 
 
@@ -295,7 +391,7 @@ def extra_checks(tier, seed):
 META = {
     'rule': 'one case = one feasible path of (program, split plan): an order-type of the symbolic delays against each other and '
             'against the concrete stop instants; non-trivial = at least two occurrences in the trace',
-    'required_labels': ['c03.split-same-order', 'c03.split-same-times', 'c03.rerun-same-times', 'c03.until-now',
+    'required_labels': ['c03.split-same-monitor-samples', 'c03.split-same-port-samples', 'c03.split-same-order', 'c03.split-same-times', 'c03.rerun-same-times', 'c03.until-now',
                         'c03.until-only-strictly-earlier', 'c03.until-refused-only-if-not-in-future',
                         'c03.until-event-value'],
     'required_covers': ['nontrivial', 'until-stop', 'until-refused', 'until-event', 'single-steps', 'network-scenario'],
